@@ -76,7 +76,13 @@ def run(ctx, rep):
         # (the stored length may be written as the constant the refusal pins it to: compared under the refusals met)
         gfacts = tuple(x['cond'] for x in I.guards if x['kind'] in ('assert', 'copy_from_slice-len', 'unwrap', 'expect'))
         el_ = byte_view(I, body_[0][1]) if len(body_) == 1 and body_[0][0] == 'elem' else None     # (a private newtype of the 4 bytes is its bytes)
-        es_ = el_.segs if isinstance(el_, SeqV) and not el_.stores else None
+        es_ = None
+        if isinstance(el_, SeqV):
+            from evalr import flatten_stores
+            es_ = norm_segs(flatten_stores(el_)) if el_.stores and flatten_stores(el_) is not None else (list(el_.segs) if not el_.stores else None)
+            # four bytes copied one by one out of the part are the part's first four bytes
+            if es_ and all(x[0] == 'int' and x[2] == 1 and x[1][0] == 'sel' and x[1][1] == ('a', var) and x[1][2] == C(k_) for k_, x in enumerate(es_)):
+                es_ = [('raw', ('a', var), C(len(es_)))]
         ok = es_ is not None and len(es_) == 1 and es_[0][0] == 'raw' and es_[0][1] == ('a', var) and equal(es_[0][2], ('len', ('a', var)), gfacts)[0]
         # the parts are split(name, '.', start) with start = 1 exactly when the string is rooted
         sp_ = src[1] if src[0] == 'len' else None
